@@ -584,8 +584,11 @@ class Resource(object):
         if id_attribute:
             etype = id_attribute._eType
             id_att_value = obj.eGet(id_attribute)
-            # the check prevents malformed ids to used as references
-            if id_att_value is not None:
+            # the check prevents malformed ids to used as references; a value
+            # that is the attribute's default is not written in the document
+            # and cannot be looked up when it is loaded
+            if id_att_value is not None \
+                    and id_att_value != id_attribute.get_default_value():
                 id_string = etype.to_string(id_att_value)
                 if self._is_reference_token(id_string):
                     return (id_string, False)
